@@ -46,7 +46,8 @@ pub trait MapValidVec<T: IsNone>: Vec1View<T> {
                     .chain(std::iter::repeat_n(value, n_abs))
                     .to_trust(len),
             ),
-            _ => Box::new(std::iter::repeat_n(T::zero(), len).to_trust(len)),
+            // lag 0: x[i] - x[i], which is zero for a valid element and null for a null one
+            _ => Box::new(self.titer().map(|v| v.clone() - v)),
         }
     }
 
@@ -98,7 +99,11 @@ pub trait MapValidVec<T: IsNone>: Vec1View<T> {
                     .chain(std::iter::repeat_n(f64::NAN, n_abs))
                     .to_trust(len),
             ),
-            _ => Box::new(std::iter::repeat_n(0., len).to_trust(len)),
+            // lag 0: x[i] / x[i] - 1, null for a null element or a zero base
+            _ => Box::new(self.titer().map(|v| {
+                let v: f64 = v.cast();
+                if v.not_none() && (v != 0.) { 0. } else { f64::NAN }
+            })),
         }
     }
 
